@@ -17,7 +17,8 @@ LEVEL = 'exploration'
 TECHNIQUE = ('Hypothesis-generated decimals k/10^j with exactly constructed '
              'ties and +-1ulp near-ties, plus a deterministic tie grid, '
              'against a decimal.Decimal reference and bracket/fixed-point '
-             'laws')
+             'laws'
+             '; CEILING/FLOOR judged on decimal renderings, _xlfn. spellings; order-independence probe')
 LEVEL_TEXT = ('Exploration: a deterministic grid of exact ties for every '
               'digits value -6..6 and a signed significance pool, plus '
               'thousands of sampled decimals/binary floats; ties are built '
